@@ -13,8 +13,11 @@ package main
 //	assign r / unassign r / tick (25 h) / crash r (a *.tmp left by a killed indexer)
 //
 // After every operation the directory is projected (listing + index.ReadMetadata through the sidecar
-// + the metadata embedded in the shard + file names decoded independently) and a fresh
-// search.NewDirectorySearcher reports what a searcher sees (List and a whole-content search).
+// + the metadata and the documents embedded in the shard + file names decoded independently) and a
+// fresh search.NewDirectorySearcher reports what a searcher sees (List and a whole-content search).
+// The scripts are executed as a tree: a common prefix runs once, the directory is saved before the
+// histories part and restored for each continuation.  One event per executed operation: the
+// operation with the observation before (= after the preceding operation) and after it.
 // Nothing is judged here: the events go to Trace_ZoektSeq.tla.
 
 import (
@@ -61,11 +64,18 @@ type sysMem struct {
 	Tb  bool `json:"tb"`
 }
 
+// embedded in the shard: metadata version and the version its documents carry
+type sysRaw struct {
+	ID  int `json:"id"`
+	Ver int `json:"ver"`
+	Cv  int `json:"cv"`
+}
+
 // one shard file.  l: "i" index directory | "t" .trash;  k: "s" simple | "c" compound;
 // nm: the repository ids whose names make up the file name (simple: the repository; compound: the
 // sequence whose sha1 is in the name);  mt: mtime in hours since the epoch of the run (trash only,
 // 0 in the index directory);  mf: a .meta sidecar exists;  mem: what ReadMetadata reports (through
-// the sidecar);  raw: what is embedded in the shard itself (tb always false there).
+// the sidecar);  raw: what is embedded in the shard itself, position by position.
 type sysFile struct {
 	L   string   `json:"l"`
 	K   string   `json:"k"`
@@ -73,7 +83,7 @@ type sysFile struct {
 	Mt  int      `json:"mt"`
 	Mf  bool     `json:"mf"`
 	Mem []sysMem `json:"mem"`
-	Raw []sysMem `json:"raw"`
+	Raw []sysRaw `json:"raw"`
 }
 
 // what the directory searcher shows for one repository: n = Stats.Shards of its List entry,
@@ -112,6 +122,8 @@ func sysIndex(dir string, r, v int) error {
 			Name:      sysName(r),
 			Branches:  []zoekt.RepositoryBranch{{Name: "HEAD", Version: fmt.Sprintf("v%d", v)}},
 			RawConfig: map[string]string{"public": "1", "priority": strconv.Itoa(r)},
+			// getTombstonedRepos prefers the copy with the latest commit: later version = later commit
+			LatestCommitDate: sysEpoch.Add(-1000 * 24 * time.Hour).Add(time.Duration(v) * 24 * time.Hour),
 		},
 		DisableCTags: true,
 		Parallelism:  1,
@@ -290,7 +302,7 @@ func sysProject(root string) sysProj {
 
 func sysProjectShard(dir, l, n string, hasMeta bool, p *sysProj) {
 	path := filepath.Join(dir, n)
-	x := sysFile{L: l, Mf: hasMeta, Nm: []int{}, Mem: []sysMem{}, Raw: []sysMem{}}
+	x := sysFile{L: l, Mf: hasMeta, Nm: []int{}, Mem: []sysMem{}, Raw: []sysRaw{}}
 	if m := sysSimpleRE.FindStringSubmatch(n); m != nil {
 		r, _ := strconv.Atoi(m[1])
 		x.K, x.Nm = "s", []int{r}
@@ -333,11 +345,44 @@ func sysProjectShard(dir, l, n string, hasMeta bool, p *sysProj) {
 			p.Junk = append(p.Junk, l+":repo-name:"+r.Name)
 		}
 	}
-	// ... and what is embedded in the shard (read under a name that has no sidecar)
-	raw, _, err := index.ReadMetadata(&sysMemFile{name: filepath.Join(dir, "no-such-dir", n), data: data})
+	// ... and what is embedded in the shard (read under a name that has no sidecar): metadata and,
+	// through a searcher on the bare file, the documents of every repository in it
+	bare := &sysMemFile{name: filepath.Join(dir, "no-such-dir", n), data: data}
+	raw, _, err := index.ReadMetadata(bare)
 	if err == nil {
+		cv := map[int]int{}
+		if sr, err := index.NewSearcher(bare); err == nil {
+			res, err := sr.Search(context.Background(), &query.Const{Value: true}, &zoekt.SearchOptions{Whole: true})
+			if err != nil {
+				p.Junk = append(p.Junk, l+":bare-search:"+n)
+			} else {
+				docs := map[int]int{}
+				for _, fm := range res.Files {
+					var r, v, j int
+					if _, err := fmt.Sscanf(string(fm.Content), "zqR%dV%dD%d ", &r, &v, &j); err != nil || int(fm.RepositoryID) != r {
+						p.Junk = append(p.Junk, l+":bare-doc:"+n)
+						continue
+					}
+					if old, ok := cv[r]; ok && old != v {
+						p.Junk = append(p.Junk, l+":mixed-versions:"+n)
+					}
+					cv[r] = v
+					docs[r]++
+				}
+				for r, c := range docs {
+					if c != sysDocs(r) {
+						p.Junk = append(p.Junk, fmt.Sprintf("%s:doc-count:%s:%d", l, n, r))
+					}
+				}
+			}
+		} else {
+			p.Junk = append(p.Junk, l+":bare-load:"+n)
+		}
 		for _, r := range raw {
-			x.Raw = append(x.Raw, sysMem{ID: int(r.ID), Ver: sysVer(r), Tb: r.Tombstone})
+			if r.Tombstone {
+				p.Junk = append(p.Junk, l+":embedded-tombstone:"+n)
+			}
+			x.Raw = append(x.Raw, sysRaw{ID: int(r.ID), Ver: sysVer(r), Cv: cv[int(r.ID)]})
 		}
 	}
 	// the sidecar replaces the embedded list position by position
@@ -415,49 +460,61 @@ func sysView(root string) ([]sysVis, []string) {
 
 // ---------------------------------------------------------------- replay
 
+// what is observed after an operation
+type sysObs struct {
+	D    []sysFile `json:"d"`
+	Tmp  int       `json:"tmp"`
+	A    []int     `json:"a"`
+	Clk  int       `json:"clk"`
+	Last []int     `json:"last"` // last[r-1] = version of the last index run of r (the driver's own book-keeping)
+	Vis  []sysVis  `json:"vis"`
+}
+
+// the part of a history that is not in the directory
+type sysEnv struct {
+	assigned [sysMaxRepo + 1]bool
+	last     [sysMaxRepo + 1]int
+	clk      int
+	crashes  int
+}
+
 type sysRun struct {
 	root     string
 	staging  string
 	mergeBin string
-	assigned map[int]bool
-	clk      int
-	crashes  int
 	srv      *Server
+	tr       *verifkit.Trace
+	steps    int
 }
 
-func (s *sysRun) aset() []int {
-	res := []int{}
-	for r := range s.assigned {
-		res = append(res, r)
-	}
-	sort.Ints(res)
-	return res
-}
-
-func (s *sysRun) event(k, j int, op sysOp, failed string) verifkit.M {
+func (s *sysRun) observe(env sysEnv) (sysObs, []string) {
 	p := sysProject(s.root)
 	vis, vjunk := sysView(s.root)
-	return verifkit.M{"ev": "op", "k": k, "j": j, "op": op.Op, "r": op.R, "v": op.V, "min": op.Min,
-		"a": s.aset(), "clk": s.clk, "dir": p.Files, "tmp": p.Tmp, "junk": append(p.Junk, vjunk...), "vis": vis, "failed": failed}
+	o := sysObs{D: p.Files, Tmp: p.Tmp, A: []int{}, Clk: env.clk, Last: []int{}, Vis: vis}
+	for r := 1; r <= sysMaxRepo; r++ {
+		if env.assigned[r] {
+			o.A = append(o.A, r)
+		}
+		o.Last = append(o.Last, env.last[r])
+	}
+	return o, append(p.Junk, vjunk...)
 }
 
-func (s *sysRun) apply(op sysOp) (failed string, err error) {
+func (s *sysRun) apply(env *sysEnv, op sysOp) (failed string, err error) {
 	switch op.Op {
 	case "index":
+		env.last[op.R] = op.V
 		if e := sysIndex(s.root, op.R, op.V); e != nil {
 			failed = "index: " + e.Error()
 		}
 	case "crash":
-		s.crashes++
-		err = sysCrash(s.root, s.staging, op.R, s.crashes)
+		env.crashes++
+		err = sysCrash(s.root, s.staging, op.R, env.crashes)
 	case "merge":
 		s.srv.mergeOpts.targetSizeBytes = sysMergeTarget(s.root)
-		ran := 0
 		s.srv.merge(func(args ...string) *exec.Cmd {
-			ran++
 			return exec.Command(s.mergeBin, append([]string{"merge"}, args...)...)
 		})
-		_ = ran
 	case "vacuum":
 		if op.Min == 0 {
 			s.srv.mergeOpts.minSizeBytes = 0
@@ -467,20 +524,59 @@ func (s *sysRun) apply(op sysOp) (failed string, err error) {
 		s.srv.vacuum()
 	case "cleanup":
 		a := []uint32{}
-		for _, r := range s.aset() {
-			a = append(a, uint32(r))
+		for r := 1; r <= sysMaxRepo; r++ {
+			if env.assigned[r] {
+				a = append(a, uint32(r))
+			}
 		}
-		cleanup(s.root, a, sysEpoch.Add(time.Duration(s.clk)*time.Hour), true)
+		cleanup(s.root, a, sysEpoch.Add(time.Duration(env.clk)*time.Hour), true)
 	case "assign":
-		s.assigned[op.R] = true
+		env.assigned[op.R] = true
 	case "unassign":
-		delete(s.assigned, op.R)
+		env.assigned[op.R] = false
 	case "tick":
-		s.clk += 25
+		env.clk += 25
 	default:
 		err = fmt.Errorf("unknown operation %q", op.Op)
 	}
+	if (op.Op == "index" || op.Op == "crash" || op.Op == "assign" || op.Op == "unassign") && (op.R < 1 || op.R > sysMaxRepo) {
+		err = fmt.Errorf("bad repository in %+v", op)
+	}
 	return failed, err
+}
+
+// ---- the directory, saved and restored
+
+type sysSnap struct {
+	rel   string
+	data  []byte
+	mtime time.Time
+}
+
+func sysSnapshot(root string) ([]sysSnap, error) {
+	var res []sysSnap
+	for _, sub := range []string{"", ".trash"} {
+		ents, err := os.ReadDir(filepath.Join(root, sub))
+		if err != nil {
+			return nil, err
+		}
+		for _, e := range ents {
+			if e.IsDir() {
+				continue
+			}
+			rel := filepath.Join(sub, e.Name())
+			data, err := os.ReadFile(filepath.Join(root, rel))
+			if err != nil {
+				return nil, err
+			}
+			fi, err := e.Info()
+			if err != nil {
+				return nil, err
+			}
+			res = append(res, sysSnap{rel, data, fi.ModTime()})
+		}
+	}
+	return res, nil
 }
 
 func sysWipe(root string) error {
@@ -488,6 +584,72 @@ func sysWipe(root string) error {
 		return err
 	}
 	return os.MkdirAll(filepath.Join(root, ".trash"), 0o755)
+}
+
+func sysRestore(root string, snap []sysSnap) error {
+	if err := sysWipe(root); err != nil {
+		return err
+	}
+	for _, x := range snap {
+		p := filepath.Join(root, x.rel)
+		if err := os.WriteFile(p, x.data, 0o644); err != nil {
+			return err
+		}
+		if err := os.Chtimes(p, x.mtime, x.mtime); err != nil {
+			return err
+		}
+	}
+	return nil
+}
+
+// ---- the scripts as a tree
+
+type sysNode struct {
+	op   sysOp
+	sid  int // first script through this node and the position of the operation in it (1-based)
+	j    int
+	kids []*sysNode
+}
+
+func (n *sysNode) child(op sysOp, sid, j int) *sysNode {
+	for _, k := range n.kids {
+		if k.op == op {
+			return k
+		}
+	}
+	k := &sysNode{op: op, sid: sid, j: j}
+	n.kids = append(n.kids, k)
+	return k
+}
+
+func (s *sysRun) walk(n *sysNode, env sysEnv, before sysObs) error {
+	var snap []sysSnap
+	if len(n.kids) > 1 {
+		var err error
+		if snap, err = sysSnapshot(s.root); err != nil {
+			return err
+		}
+	}
+	for i, k := range n.kids {
+		if i > 0 {
+			if err := sysRestore(s.root, snap); err != nil {
+				return err
+			}
+		}
+		e := env
+		failed, err := s.apply(&e, k.op)
+		if err != nil {
+			return fmt.Errorf("script %d step %d: %w", k.sid, k.j, err)
+		}
+		after, junk := s.observe(e)
+		s.steps++
+		s.tr.Emit(verifkit.M{"ev": "step", "sid": k.sid, "j": k.j, "op": k.op.Op, "r": k.op.R, "v": k.op.V, "min": k.op.Min,
+			"pre": before, "post": after, "junk": junk, "failed": failed})
+		if err := s.walk(k, e, after); err != nil {
+			return err
+		}
+	}
+	return nil
 }
 
 // every index.Builder allocates four 16 MB pointer tables (postingsBuilder.asciiPostings).  With a
@@ -530,30 +692,44 @@ func TestVerif_SYS_Replay(t *testing.T) {
 	}
 	defer os.RemoveAll(base)
 
-	for k, raw := range scripts {
+	// one tree per number of initially assigned repositories
+	roots := map[int]*sysNode{}
+	var order []int
+	for sid, raw := range scripts {
 		var sc sysScript
 		if err := json.Unmarshal(raw, &sc); err != nil {
-			t.Fatalf("script %d: %v", k, err)
+			t.Fatalf("script %d: %v", sid, err)
 		}
-		s := &sysRun{root: filepath.Join(base, "index"), staging: filepath.Join(base, "staging"), mergeBin: mergeBin,
-			assigned: map[int]bool{}}
 		if sc.Repos < 1 || sc.Repos > sysMaxRepo {
-			t.Fatalf("script %d: repos = %d", k, sc.Repos)
+			t.Fatalf("script %d: repos = %d", sid, sc.Repos)
 		}
-		for r := 1; r <= sc.Repos; r++ {
-			s.assigned[r] = true
+		n := roots[sc.Repos]
+		if n == nil {
+			n = &sysNode{}
+			roots[sc.Repos] = n
+			order = append(order, sc.Repos)
 		}
+		for j, op := range sc.Ops {
+			n = n.child(op, sid, j+1)
+		}
+	}
+	s := &sysRun{root: filepath.Join(base, "index"), staging: filepath.Join(base, "staging"), mergeBin: mergeBin, tr: tr}
+	for _, repos := range order {
 		if err := sysWipe(s.root); err != nil {
 			t.Fatal(err)
 		}
 		s.srv = &Server{IndexDir: s.root}
-		tr.Emit(s.event(k, 0, sysOp{Op: "reset"}, ""))
-		for j, op := range sc.Ops {
-			failed, err := s.apply(op)
-			if err != nil {
-				t.Fatalf("script %d step %d: %v", k, j+1, err)
-			}
-			tr.Emit(s.event(k, j+1, op, failed))
+		var env sysEnv
+		for r := 1; r <= repos; r++ {
+			env.assigned[r] = true
+		}
+		start, junk := s.observe(env)
+		if len(junk) != 0 || len(start.D) != 0 {
+			t.Fatalf("empty directory observed as %+v %v", start, junk)
+		}
+		if err := s.walk(roots[repos], env, start); err != nil {
+			t.Fatal(err)
 		}
 	}
+	t.Logf("SYS steps executed: %d", s.steps)
 }
